@@ -130,6 +130,7 @@ func (g *gen) filePart(pInvalid int) *Part {
 	p.SM, p.MM, p.MA, p.Pairs = nil, nil, nil, nil
 	p.Arr, p.When, p.Peers, p.PM = nil, nil, nil, nil
 	p.PWhen, p.TU, p.Held = nil, nil, nil
+	p.Chain = 0
 	if p.NestS == nil && p.NestN == nil {
 		p.NestS = nil
 	}
